@@ -23,7 +23,7 @@ var (
 	c08Bound  = flag.Int("bound", 2, "preemption bound of the exhaustive part")
 	c08Cap    = flag.Int("cap", 300, "cap on explored schedules per request set")
 	c08Random = flag.Int("random", 40, "random schedules per request set beyond the bound")
-	c08Kinds  = flag.String("kinds", "dup,inbox,like,follow,add,outbox,forward2,add2,remove2,likebad,accept2", "request-set kinds")
+	c08Kinds  = flag.String("kinds", "dup,inbox,like,follow,add,outbox,forward2,add2,remove2,likebad,accept2,refused", "request-set kinds")
 )
 
 type abortSignal struct{}
@@ -44,6 +44,8 @@ type decision struct {
 }
 
 type csched struct {
+	noWait    map[int]bool // threads whose Lock does not wait: refused (not taken) while another request holds the id
+	foreign   []string     // Unlock calls that released a lock held by another request
 	r         *recorder
 	threads   []*cthread
 	locks     map[string]int
@@ -117,11 +119,14 @@ func (s *csched) yield(tid int, what string) {
 	s.switchTo(tid, s.choose(tid, true))
 }
 
-func (s *csched) acquire(tid int, id string) {
+func (s *csched) acquire(tid int, id string) bool {
 	for {
 		if _, held := s.locks[id]; !held {
 			s.locks[id] = tid
-			return
+			return true
+		}
+		if s.noWait[tid] && s.locks[id] != tid {
+			return false
 		}
 		// held (by another thread, or by this one: the application's lock is not re-entrant)
 		s.threads[tid].blockedOn = id
@@ -138,8 +143,12 @@ func (s *csched) acquire(tid int, id string) {
 	}
 }
 
+// release: the application's lock is a plain binary semaphore per id (a mutex per id): Unlock frees it whoever holds it.
 func (s *csched) release(tid int, id string) {
-	if o, held := s.locks[id]; held && o == tid {
+	if o, held := s.locks[id]; held {
+		if o != tid {
+			s.foreign = append(s.foreign, fmt.Sprintf("request %d released the lock on %s held by request %d", tid, id, o))
+		}
 		delete(s.locks, id)
 	}
 }
@@ -178,6 +187,7 @@ func (s *csched) threadDone(tid int) {
 }
 
 type concResult struct {
+	foreign   []string
 	threads   []*cthread
 	final     *world
 	deadlock  bool
@@ -185,10 +195,10 @@ type concResult struct {
 	global    []entry
 }
 
-func runConc(w0 *world, cfg config, reqs []*scenario, prefix []int, rnd *rng) concResult {
+func runConc(w0 *world, cfg config, reqs []*scenario, prefix []int, rnd *rng, noWait map[int]bool) concResult {
 	w := copyWorld(w0)
 	r := newRecorder(w, &cfg, nil)
-	s := &csched{r: r, locks: map[string]int{}, prefix: prefix, finished: make(chan struct{}), rnd: rnd}
+	s := &csched{r: r, locks: map[string]int{}, prefix: prefix, finished: make(chan struct{}), rnd: rnd, noWait: noWait}
 	r.sched = &scheduler{impl: s}
 	actor := buildActor(r) // ONE actor for all concurrent requests
 	var wg sync.WaitGroup
@@ -235,7 +245,7 @@ func runConc(w0 *world, cfg config, reqs []*scenario, prefix []int, rnd *rng) co
 	s.threads[first].wake <- struct{}{}
 	<-s.finished
 	wg.Wait()
-	res := concResult{threads: s.threads, final: w, deadlock: s.deadlock, decisions: s.decisions, global: r.trace}
+	res := concResult{threads: s.threads, final: w, deadlock: s.deadlock, decisions: s.decisions, global: r.trace, foreign: s.foreign}
 	for t, th := range s.threads {
 		for _, e := range r.trace {
 			if e.Tid == t {
@@ -351,6 +361,7 @@ func permutations(n int) [][]int {
 // ---- request sets ------------------------------------------------------------------------------------------
 
 type reqSet struct {
+	noWait map[int]bool // requests whose Lock does not wait
 	kind string
 	w    *world
 	cfg  config
@@ -459,6 +470,18 @@ func genReqSet(r *rng, kind string, k int) reqSet {
 			a["object"] = jmap{"type": "Follow", "id": fid, "actor": alice, "object": peer}
 			rs.reqs = append(rs.reqs, inboxScenario("conc:accept2", w, cfg, a))
 		}
+	case "refused": // three deliveries to one inbox; the second request's Lock does not wait (a lock-wait timeout, a cancelled
+		// request): while another request holds the id it is refused - not taken - and that request fails, having changed nothing
+		rs.noWait = map[int]bool{1: true}
+		for i := 0; i < 3; i++ {
+			j := i
+			if k%2 == 0 && i == 2 {
+				j = 0 // the first and the third are deliveries of one activity
+			}
+			a := inboxAct("Create", j, remoteActors[j%3])
+			a["object"] = jmap{"type": "Note", "id": fmt.Sprintf("%s/notes/c%d-%d", remote, k, j), "content": "x"}
+			rs.reqs = append(rs.reqs, inboxScenario("conc:refused", w, cfg, a))
+		}
 	case "forward2": // two forwardable activities naming two owned collections in opposite orders
 		for i := 0; i < 2; i++ {
 			a := inboxAct("Create", i, pick(r, remoteActors[:3]))
@@ -516,18 +539,38 @@ func runC08() {
 			// what the same requests put into the collections when executed one after another (every order)
 			seqKeys := map[string]bool{}
 			var seqs []map[string][]string
-			for _, perm := range permutations(len(rs.reqs)) {
-				w := rs.w
-				for _, j := range perm {
-					sc := *rs.reqs[j]
-					sc.World = w
-					res := runScenario(&sc)
-					w = res.Final
+			subsets := [][]int{nil} // nil: all requests; a request whose Lock is refused fails having done nothing, so the
+			// sequential references are the orders of all requests and of those whose locks wait
+			if len(rs.noWait) > 0 {
+				var waiting []int
+				for j := range rs.reqs {
+					if !rs.noWait[j] {
+						waiting = append(waiting, j)
+					}
 				}
-				m := normGenerated(collectionsOf(w), rs.w.NewIDBase)
-				if !seqKeys[collKey(m)] {
-					seqKeys[collKey(m)] = true
-					seqs = append(seqs, m)
+				subsets = append(subsets, waiting)
+			}
+			for _, sub := range subsets {
+				n := len(rs.reqs)
+				if sub != nil {
+					n = len(sub)
+				}
+				for _, perm := range permutations(n) {
+					w := rs.w
+					for _, j := range perm {
+						if sub != nil {
+							j = sub[j]
+						}
+						sc := *rs.reqs[j]
+						sc.World = w
+						res := runScenario(&sc)
+						w = res.Final
+					}
+					m := normGenerated(collectionsOf(w), rs.w.NewIDBase)
+					if !seqKeys[collKey(m)] {
+						seqKeys[collKey(m)] = true
+						seqs = append(seqs, m)
+					}
 				}
 			}
 			// schedules
@@ -535,7 +578,7 @@ func runC08() {
 			seen := map[string]bool{}
 			stack := [][]int{{}}
 			runOne := func(prefix []int, rnd *rng) concResult {
-				cr := runConc(rs.w, rs.cfg, rs.reqs, prefix, rnd)
+				cr := runConc(rs.w, rs.cfg, rs.reqs, prefix, rnd, rs.noWait)
 				explored++
 				perKind[kind]++
 				s.Evaluations++
@@ -554,7 +597,7 @@ func runC08() {
 				for _, d := range cr.decisions {
 					sched = append(sched, d.chosen)
 				}
-				meta = append(meta, map[string]interface{}{"kind": kind, "set": k, "schedule": sched, "deadlock": cr.deadlock, "requests": bodies(rs.reqs), "final": fin})
+				meta = append(meta, map[string]interface{}{"kind": kind, "set": k, "schedule": sched, "deadlock": cr.deadlock, "requests": bodies(rs.reqs), "final": fin, "locks_that_do_not_wait": len(rs.noWait), "foreign_releases": cr.foreign})
 				return cr
 			}
 			for len(stack) > 0 && explored < *c08Cap {
